@@ -23,7 +23,10 @@ RULE = ("history: a first 'create' followed by up to 14 (quick) / 26 (thorough) 
         "scale_factor(scalar/vector, negative allowed, override T/F), shift_value(scalar/vector, override T/F), "
         "revert_scaling, shuffle, move_boundaries_to_front, split_labels, split_pieces(p incl. 0, 1, out of range), "
         "split_without_labels, remove_samples (distinct in-range indices / one out-of-range index among them), "
-        "concatenate (any two pool members incl. itself), copy, remove_labels}; operands are pool members chosen by a drawn index "
+        "concatenate (any two pool members incl. itself), list_concatenate (1..5 members in drawn order: pool members, "
+        "preferably-empty pool members, fresh empty sets built by DataSet(empty array) / DataSet((empty, empty)) / "
+        "list_concatenate([]), at any position, repeats allowed; modelled as the pairwise fold of the concatenate model), "
+        "copy, remove_labels}; operands are pool members chosen by a drawn index "
         "(3 of 4 draws skip empty members; revert prefers scaled members; -1/-2 address the newest members). "
         "scale_range carries a flag 'repeat the range last applied to this set or its parent' (drawn 1/2) and is followed in 4 of 7 "
         "draws by remove_samples of rows holding a per-dimension extreme / split_pieces / split_labels and a non-overriding "
@@ -99,6 +102,30 @@ def _cp(np, a):
 class Entry:
     def __init__(self, obj, m, eid, origin):
         self.obj, self.m, self.eid, self.origin = obj, m, eid, origin
+
+
+class _Proxy:
+    """stands for the DataSet of an intermediate result of the list_concatenate fold (never observed)"""
+    def __init__(self, dim, rng, factor):
+        self._dim, self._rng, self._factor = dim, rng, factor
+
+    def get_dim(self):
+        return self._dim
+
+    def get_scaling_range(self):
+        return self._rng
+
+    def get_scaling_factor(self):
+        return self._factor
+
+
+class _Operand:
+    def __init__(self, m, obj, entry, fresh=False, borderline=False):
+        self.m, self.obj, self.entry, self.fresh, self.borderline = m, obj, entry, fresh, borderline
+
+    @property
+    def dim(self):
+        return self.obj.get_dim()
 
 
 def _silent():
@@ -273,6 +300,11 @@ class Machine:
         if k < 0:                       # -1 / -2: the most recently added members (e.g. the pieces of the last split)
             return self.pool[max(k, -n)]
         slot = (k % 12) % n
+        if k >= 48:                     # prefer an EMPTY member (emptied by remove_samples, empty split piece, ...)
+            for j in range(n):
+                if self.pool[(slot + j) % n].m.n == 0:
+                    return self.pool[(slot + j) % n]
+            return self.pool[slot]
         if k >= 36:
             return self.pool[slot]
         for pref in ((lambda e: e.m.n > 0 and prefer(e)) if prefer else None, lambda e: e.m.n > 0):
@@ -867,9 +899,7 @@ class Machine:
             # all scaling attributes agree, but the two affine maps x -> f*x + c can still differ in c (e.g. two pieces
             # that were rescaled to the same range separately): no single "original" exists for the product, so only its
             # current rows are checked and it is not tracked any further
-            ca = a.m.cur[0] - a.m.factor * a.m.orig[0]
-            cb = b.m.cur[0] - b.m.factor * b.m.orig[0]
-            if np.any(np.abs(ca - cb) > max(a.m.tol(), b.m.tol()) * (1.0 + np.max(np.abs(np.atleast_1d(a.m.factor))))):
+            if self._maps_differ(a.m, b.m):
                 self.out.cls("concatenate-equal-attributes-different-shift-history:untracked")
                 X, y = obs_rows(np, res)
                 both = np.concatenate([a.m.cur, b.m.cur], axis=0)
@@ -877,20 +907,164 @@ class Machine:
                 if dd is not None:
                     self.bad("data/%s/product-of-concatenate" % dd[0], dd[1])
                 return self.check_all("concatenate", targets=[a, b])
-        # result = rows of a followed by rows of b (as a multiset), attributes of a
-        d = a.m.cur.shape[1] if a.m.n else b.m.cur.shape[1]
-        cur = np.concatenate([a.m.cur.reshape(a.m.n, d), b.m.cur.reshape(b.m.n, d)], axis=0)
-        m = Model(np, cur, np.concatenate([a.m.lab, b.m.lab]), d)
-        src = a.m
-        m.scaled, m.factor, m.omin, m.omax, m.rng = src.scaled, _cp(np, src.factor), _cp(np, src.omin), _cp(np, src.omax), src.rng
-        m.mag = max(a.m.mag, b.m.mag)
-        m.moved = src.scaled
-        if src.scaled:
-            oa = a.m.orig if a.m.orig is not None else a.m.cur
-            ob = b.m.orig if b.m.orig is not None else b.m.cur
-            m.orig = np.concatenate([oa.reshape(a.m.n, d), ob.reshape(b.m.n, d)], axis=0)
+        m = self._union_model(a.m, b.m)
         e = self.add(res, m, "concatenate")
         self.check_all("concatenate", targets=[a, b], products=[e])
+
+    def _union_model(self, am, bm):
+        """model of a.concatenate(b) for equally scaled operands: rows of a and of b (as a multiset), attributes of a"""
+        np = self.np
+        d = am.cur.shape[1] if am.n else bm.cur.shape[1]
+        cur = np.concatenate([am.cur.reshape(am.n, d), bm.cur.reshape(bm.n, d)], axis=0)
+        m = Model(np, cur, np.concatenate([am.lab, bm.lab]), d)
+        m.scaled, m.factor, m.omin, m.omax, m.rng = am.scaled, _cp(np, am.factor), _cp(np, am.omin), _cp(np, am.omax), am.rng
+        m.mag = max(am.mag, bm.mag)
+        m.moved = am.scaled
+        if am.scaled:
+            oa = am.orig if am.orig is not None else am.cur
+            ob = bm.orig if bm.orig is not None else bm.cur
+            m.orig = np.concatenate([oa.reshape(am.n, d), ob.reshape(bm.n, d)], axis=0)
+        return m
+
+    def _maps_differ(self, am, bm):
+        """both scaled and non-empty, all attributes equal, but the affine maps x -> f*x + c differ in c"""
+        np = self.np
+        if not (am.scaled and bm.scaled and am.n and bm.n):
+            return False
+        ca = am.cur[0] - am.factor * am.orig[0]
+        cb = bm.cur[0] - bm.factor * bm.orig[0]
+        return bool(np.any(np.abs(ca - cb) > max(am.tol(), bm.tol()) * (1.0 + np.max(np.abs(np.atleast_1d(am.factor))))))
+
+    # -- list_concatenate: the n-ary form, modelled as the pairwise fold of the concatenate model -------------------------
+    def _fold_step(self, a, b):
+        """one a.concatenate(b) of the fold on model level.  a, b: _Operand.  Returns (kind, operand-or-None, what):
+        'result' (the operand describing the outcome), 'refuse' (ValueError required; what = cause),
+        'either' (refusal and acceptance both fine, outcome not tracked), 'untracked' (accepted, no single original)."""
+        if a.dim != b.dim:
+            if b.m.n == 0:
+                return "result", a, ""
+            if a.m.n == 0:
+                return "result", b, ""
+            return "refuse", None, "dimension-mismatch"
+        rel = self._scaling_relation(a, b)
+        if (a.m.n == 0 or b.m.n == 0) and rel != "same":
+            return "either", None, rel
+        if rel.startswith("different"):
+            return "refuse", None, rel.split(":")[1]
+        if self._maps_differ(a.m, b.m):
+            return "untracked", None, "shift-history"
+        m = self._union_model(a.m, b.m)
+        return "result", _Operand(m, _Proxy(m.cur.shape[1] if m.n else 0, a.obj.get_scaling_range(), a.obj.get_scaling_factor()),
+                                  None, borderline=(rel == "borderline") or a.borderline or b.borderline), ""
+
+    def op_list_concatenate(self, op):
+        np = self.np
+        members = []
+        for tok in op[1]:
+            if isinstance(tok, str):
+                # a FRESH empty set, every way the public API offers
+                if tok == "E0":
+                    obj = self.DataSet(np.array([]), print_level=100, log_level=100)
+                elif tok == "E1":
+                    obj = self.DataSet((np.array([]), np.array([])), print_level=100, log_level=100)
+                else:
+                    obj = self.DataSet.list_concatenate([])
+                members.append(_Operand(Model(np, np.zeros((0, 0)), [], 0), obj, None, fresh=True))
+            else:
+                e = self.pick(tok)
+                if e is None:
+                    return
+                members.append(_Operand(e.m, e.obj, e))
+        if not members:
+            return
+        entries = []
+        for v in members:
+            if v.entry is not None and not any(v.entry is x for x in entries):
+                entries.append(v.entry)
+        snaps = [self.snapshot(e) for e in entries]
+        res, exc = self.call_may_raise(lambda: self.DataSet.list_concatenate([v.obj for v in members]))
+        # classes
+        self.out.cls("list_concatenate")
+        nonempty = [i for i, v in enumerate(members) if v.m.n]
+        if len(members) == 1:
+            self.out.cls("list_concatenate:single")
+        if members[0].fresh and nonempty:
+            self.out.cls("list_concatenate:fresh-empty-first")
+        if nonempty and any(members[i].m.n == 0 for i in range(nonempty[0] + 1, nonempty[-1])):
+            self.out.cls("list_concatenate:empty-middle")
+        if nonempty and len(members) > 1 and members[-1].m.n == 0:
+            self.out.cls("list_concatenate:empty-last")
+        if len(set(id(v.obj) for v in members)) < len(members):
+            self.out.cls("list_concatenate:same-object-twice")
+        # the fold on model level
+        acc, kind, what = members[0], "result", ""
+        for v in members[1:]:
+            kind, nxt, what = self._fold_step(acc, v)
+            if kind != "result":
+                break
+            acc = nxt
+        for e, sn in zip(entries, snaps):
+            self.check_unmodified(e, sn, "list_concatenate", "member of list_concatenate")
+        rows = [v.m for v in members if v.m.n]
+        oneD = [v for v in members if v.m.n == 0 and v.obj.get_dim() > 0 and np.asarray(v.obj.get_data()[0]).ndim == 1]
+
+        def rows_only():
+            """accepted although no single scaling describes the result: only the current rows are compared"""
+            d = rows[0].cur.shape[1] if rows else 0
+            EX = np.concatenate([r.cur for r in rows], axis=0) if rows else np.zeros((0, 0))
+            Ey = np.concatenate([r.lab for r in rows]) if rows else np.zeros(0, dtype=np.int64)
+            X, y = obs_rows(np, res)
+            dd = diff_entry(np, X, y, EX.reshape(len(Ey), d), Ey, max([r.tol() for r in rows] + [1e-9]))
+            if dd is not None:
+                self.bad("data/%s/product-of-list_concatenate" % dd[0], dd[1])
+
+        self.out.cls("list_concatenate-" + (kind if kind != "result" else "tracked") + ((":" + what) if what else ""))
+        if kind == "refuse":
+            if exc is None:
+                if what == "dimension-mismatch":
+                    self.bad("concatenate/dimension-mismatch-accepted", "list_concatenate of members with different dimensions")
+                else:
+                    self.bad("concatenate/different-scaling-not-refused/%s" % what, "list_concatenate of %d members: a pairwise "
+                             "step joins differently scaled sets (%s) without ValueError" % (len(members), what))
+            elif not isinstance(exc, ValueError):
+                self.bad_exc(exc, "list_concatenate of differently scaled sets (ValueError expected)")
+            return self.check_all("list_concatenate", targets=entries)
+        if kind in ("either", "untracked"):
+            if exc is not None:
+                if isinstance(exc, ValueError) and "scaling" not in str(exc) and oneD and kind == "either":
+                    self.bad("concatenate/fails-on-emptied-operand-whose-sample-array-became-1d", repr(exc))
+                elif not (isinstance(exc, ValueError) and kind == "either"):
+                    self.bad_exc(exc, "list_concatenate")
+            else:
+                rows_only()
+            return self.check_all("list_concatenate", targets=entries)
+        # tracked: must work, result = acc
+        if exc is not None:
+            if acc.borderline and isinstance(exc, ValueError) and "scaling" in str(exc):
+                pass
+            elif isinstance(exc, ValueError) and "scaling" not in str(exc) and oneD:
+                self.bad("concatenate/fails-on-emptied-operand-whose-sample-array-became-1d", repr(exc))
+            elif isinstance(exc, ValueError) and "scaling" in str(exc):
+                self.bad("concatenate/same-scaling-refused", "list_concatenate: %r" % exc)
+            else:
+                self.bad_exc(exc, "list_concatenate of equally scaled sets")
+            return self.check_all("list_concatenate", targets=entries)
+        same = [e for e in entries if e.obj is res]
+        if same:
+            # the library handed back one of the members itself (single-element list, all others empty)
+            if same[0].m.n != acc.m.n:
+                self.bad("list_concatenate/returned-member-is-not-the-result", "returned member #%d has %d samples, the result should "
+                         "have %d" % (same[0].eid, same[0].m.n, acc.m.n))
+            else:
+                self.pool.append(same[0])
+                while len(self.pool) > MAX_POOL:
+                    self.pool.pop(0)
+            return self.check_all("list_concatenate", targets=entries)
+        m = acc.m.child(np, list(range(acc.m.n)))
+        if m.scaled and m.n:
+            m.moved = True
+        pe = self.add(res, m, "list_concatenate")
+        self.check_all("list_concatenate", targets=entries, products=[pe])
 
     def op_copy(self, op):
         np = self.np
@@ -950,6 +1124,7 @@ class Machine:
                      shift_value=self.op_shift_value, revert=self.op_revert, shuffle=self.op_shuffle, mbf=self.op_mbf,
                      split_labels=self.op_split, split_pieces=self.op_split, split_without_labels=self.op_split,
                      remove_samples=self.op_remove_samples, concatenate=self.op_concatenate, copy=self.op_copy,
+                     list_concatenate=self.op_list_concatenate,
                      remove_labels=self.op_remove_labels)
         for op in ops:
             self.steps += 1
@@ -981,7 +1156,7 @@ SHIFTS = [1.0, -1.0, 0.5, 5.0, -2.25, 0.1, 0.0]
 PERC = [0.0, 0.25, 0.4, 0.5, 0.75, 0.9, 0.999, 1.0, 1.5, -0.5]
 KINDS = (["create"] * 2 + ["scale_range"] * 5 + ["scale_factor"] * 3 + ["shift_value"] * 3 + ["revert"] * 5 + ["shuffle"] * 2 +
          ["mbf"] * 3 + ["split_labels"] * 2 + ["split_pieces"] * 4 + ["split_without_labels"] * 2 + ["remove_in"] * 3 +
-         ["remove_out"] * 1 + ["concatenate"] * 4 + ["copy"] * 3 + ["remove_labels"] * 2)
+         ["remove_out"] * 1 + ["concatenate"] * 4 + ["list_concatenate"] * 4 + ["copy"] * 3 + ["remove_labels"] * 2)
 
 
 @st.composite
@@ -1054,6 +1229,15 @@ def history_strategy(tier):
                             draw(st.sampled_from(["minus1", "len", "len+1", "len+5", "minus-len-1"]))])
             elif k == "concatenate":
                 ops.append([k, draw(idx), draw(idx)])
+            elif k == "list_concatenate":
+                member = st.one_of(st.integers(0, 35), st.integers(0, 35), st.integers(0, 35), st.integers(36, 59),
+                                   st.sampled_from(["E0", "E1", "E2"]))
+                lst = draw(st.lists(member, min_size=1, max_size=5))
+                if draw(st.sampled_from([0, 0, 1])):                     # a fresh empty set in first position
+                    lst = [draw(st.sampled_from(["E0", "E1", "E2"]))] + lst[:4]
+                if len(lst) >= 2 and draw(st.sampled_from([0, 0, 0, 1])):  # the same member twice
+                    lst[-1] = lst[0] if not isinstance(lst[0], str) else lst[1]
+                ops.append([k, lst])
             elif k == "remove_labels":
                 ops.append([k, draw(idx), draw(st.sampled_from([0.0, 0.3, 0.5, 1.0, 2.0]))])
         return dict(rng=draw(st.integers(0, 2 ** 31 - 1)), ops=ops)
